@@ -65,6 +65,7 @@ func Server(name string, fn ...func()) *expr.ServerExpr {
 	api, ok := eval.Current().(*expr.APIExpr)
 	if !ok {
 		eval.IncompatibleDSL()
+		return server
 	}
 	if len(fn) > 0 {
 		eval.Execute(fn[0], server)
